@@ -52,6 +52,11 @@ def correspondence(ctx, batch):
     for _ in range(ctx.n(60, 1000)):
         inputs = common.gen_inputs(rng, styled_p=0.2)
         stages.stage_render(batch, inputs, reg, common.cmps_choice(rng), [common.gen_job(rng)])
+    for _ in range(ctx.n(60, 1000)):
+        mix = gen.gen_pseudo_mix(rng)
+        r2 = common.registry_choice(rng, datetime_p=0.7)
+        stages.stage_generate(batch, mix, r2)
+        stages.stage_render(batch, [("Root", mix)], r2, common.cmps_choice(rng), [common.gen_job(rng)])
 
 
 def null_only_keys(samples):
@@ -132,6 +137,22 @@ def check_case(inputs, cmps, job, registry):
                             kind = "F4-pydantic-optional-container-of-none"
                         except Exception:  # noqa
                             pass
+                    if kind == "pydantic-rejects-sample" and _re.search(r"(?m)^from datetime import ", text):
+                        # F2: the library's lenient (dateutil.parser.parse) time detection typed a string as `time` and
+                        # pydantic's own parser rejects that string. The finding is this one only if the same module with
+                        # `str` in place of `time` (and nothing else changed) accepts the sample (the structural acceptor, which asks the
+                        # library's parser, has already accepted it above).
+                        lines = []
+                        for ln in text.split("\n"):
+                            m = _re.match(r"^(\s+\w+: )(.*)$", ln)
+                            if m:
+                                ln = m.group(1) + _re.sub(r"\btime\b", "str", m.group(2))
+                            lines.append(ln)
+                        try:
+                            real.pydantic_parse(real.load_module("\n".join(lines)), cls_name, s)
+                            kind = "F2-lenient-time-detection"
+                        except Exception:  # noqa
+                            pass
                     return {"kind": kind, "sample": s, "observed": f"{type(e).__name__}: {str(e)[:500]}",
                             "text": text[:4000]}, None
     return None, None
@@ -144,21 +165,36 @@ def falsify(ctx):
     for samples in CORPUS:
         for fw in common.FRAMEWORKS:
             cases.append(([("Root", samples)], fw))
+    sweep_from = len(cases)
+    for samples in gen.pseudo_mix_sweep():
+        cases.append(([("Root", samples)], "pydantic"))
+    sweep_to = len(cases)
     fcmps = {}
     for inputs, cm, _ in common.focus_cases(ctx):
         fcmps[len(cases)] = cm
         cases.append((inputs, None))
     n = ctx.n(220, 6000)
+    ALL = ("IntString", "FloatString", "BooleanString")
     for i in range(len(cases) + n):
+        spec = {"kinds": list(ALL), "datetime": False}
         if i < len(cases):
             inputs, fw = cases[i]
+            if sweep_from <= i < sweep_to:
+                spec = {"kinds": list(ALL), "datetime": True}
+        elif i % 6 == 5:
+            # string-type registry contents: a field mixing pseudo-type kinds under registries with / without date-time types
+            inputs, fw = [("Root", gen.gen_pseudo_mix(rng))], rng.choice([None, "pydantic", "pydantic"])
+            spec = {"kinds": list(rng.choice([ALL, ALL, ("IntString", "FloatString"), ("BooleanString",), ()])),
+                    "datetime": rng.random() < 0.7}
         else:
             inputs, fw = common.gen_inputs(rng, styled_p=0.2), None
         cmps = fcmps.get(i) or common.cmps_choice(rng)
         job = common.gen_job(rng, fw=fw)
         job["preamble"] = None
+        case_registry = registry if spec == {"kinds": list(ALL), "datetime": False} else \
+            stages.make_registry(tuple(spec["kinds"]), datetime=spec["datetime"])
         try:
-            hit, skip = check_case(inputs, cmps, job, registry)
+            hit, skip = check_case(inputs, cmps, job, case_registry)
         except (ZeroDivisionError, stages.TooCostly):
             ctx.count("skip:zero-division")
             continue
@@ -172,7 +208,7 @@ def falsify(ctx):
         ctx.count("fw:" + job["fw"])
         ctx.sample({"inputs": inputs, "job": job}, limit=2)
         if hit:
-            hit.update({"input": inputs, "job": job, "cmps": [stages.enc_cmp(c) for c in cmps]})
+            hit.update({"input": inputs, "job": job, "cmps": [stages.enc_cmp(c) for c in cmps], "registry": spec})
             yield hit
 
 
@@ -180,7 +216,9 @@ def replay(ctx, hit):
     from ..worker import cmps_from
     inputs = [tuple(x) for x in hit["input"]]
     try:
-        h, _ = check_case(inputs, cmps_from(hit["cmps"]), hit["job"], stages.make_registry())
+        spec = hit.get("registry") or {"kinds": ["IntString", "FloatString", "BooleanString"], "datetime": False}
+        h, _ = check_case(inputs, cmps_from(hit["cmps"]), hit["job"],
+                          stages.make_registry(tuple(spec["kinds"]), datetime=spec["datetime"]))
     except stages.TooCostly:
         raise
     except Exception as e:  # noqa
